@@ -54,7 +54,7 @@ var reCollection = regexp.MustCompile(`^([a-z]|X[0-9]+)s$`)
 func C07(e *core.Env) {
 	res := e.Res
 	res.Rule = "cases = well-formed declarative profiles that must compile: (a) N nested constraints side by side in one validation, N in 1..40 crossing the 25-letter boundary (quick: 14 values, thorough: all), (b) nesting depth 1..7, (c) 1..30 validations over the three levels, (d) every documented constraint kind x path shape (single, sequence, alternative, inverse, alternative inside a sequence inside an alternative, @type), (e) several constraints of one kind in one rule body (or / if / not-and), with messages of 0..3 placeholders, (f) seeded random formulas; " +
-		"for (a) and (b) the quantified variables and collections found in the real module (parsed with the engine's parser) must be exactly the model's var_name / plural; (h) 28 legal but degenerate / unusual arguments (empty lists, zero counts, patterns with a backtick / quote / backslash class / newline, path keys over several lines or with tabs, zero / negative / float bounds, quantifier counts 0 and 10^6) plain and under not; (g) 24 texts (each control / format / astral / quoting character on its own) x {profile name, validation name, message, list value}; non-trivial = every case; distinct by profile text"
+		"for (a) and (b) the quantified variables and collections found in the real module (parsed with the engine's parser) must be exactly the model's var_name / plural; (i) the string literal written for 12 patterns and the set literal written for 6 value lists, text against text with the Coq model; (h) 28 legal but degenerate / unusual arguments (empty lists, zero counts, patterns with a backtick / quote / backslash class / newline, path keys over several lines or with tabs, zero / negative / float bounds, quantifier counts 0 and 10^6) plain and under not; (g) 24 texts (each control / format / astral / quoting character on its own) x {profile name, validation name, message, list value}; non-trivial = every case; distinct by profile text"
 	compile := func(label, profile string, known func(err error) bool) bool {
 		_, err := pkg.CompileProfile(profile, false, nil)
 		if err == nil {
@@ -337,6 +337,61 @@ func C07(e *core.Env) {
 			compile(fmt.Sprintf("argument %s neg=%v", ac.name, neg), p, nil)
 			res.Case(fmt.Sprintf("arg|%s|%v", ac.name, neg), true)
 			res.Count("family=arguments")
+		}
+	}
+	// (i) the two literals of the repaired defects, text against text: what the generator writes for a pattern and for a value
+	// list must be exactly what the Coq model writes (Escape.pattern_literal / string_set_literal, theorems C07_pattern_literal
+	// and C07_value_list_is_a_set)
+	rePat := regexp.MustCompile("(?s)regex\\.match\\((.*?),gen_[A-Za-z0-9_]*\\)")
+	reSet := regexp.MustCompile(`^\s*[A-Za-z0-9_]+ = (set\(\)|\{ .*\})\s*$`)
+	for pi, pat := range []string{"^a", "x`y", "``", "a\"b", "^\\d+\\.\\d+$", "a\nb", "tab\there", "`\"\\`", "", "é`ü", "$message", "%v`%d"} {
+		p := header + "violation:\n  - v\nvalidations:\n  v:\n    targetClass: ex.T\n    message: m\n    propertyConstraints:\n      ex.a:\n        pattern: " + yq(pat) + "\n"
+		res.Case(fmt.Sprintf("pattern-literal|%d", pi), true)
+		res.Count("family=literals")
+		unit, err := validator.GenerateRego(p, false, nil)
+		if err != nil || unit == nil {
+			res.Violate("impl-violates-property", "a profile with the pattern "+fmt.Sprintf("%q", pat)+" is not translated: "+fmt.Sprint(err), map[string]any{"profile": p})
+			continue
+		}
+		got := ""
+		if ms := rePat.FindAllStringSubmatch(unit.Code, -1); len(ms) > 0 {
+			got = ms[len(ms)-1][1]
+		}
+		want := e.Driver.MustEval(sx.L(sx.A("c07"), sx.A("pattern-literal"), sx.S(pat))).Text()
+		if got != want {
+			res.Violate("model-mismatch", "the literal the generator writes for the pattern "+fmt.Sprintf("%q", pat)+" differs from Escape.pattern_literal",
+				map[string]any{"no_failing_input_found": true, "broken": "correspondence Escape.pattern_literal vs generator/pattern.go", "profile": p, "impl_literal": got, "model_literal": want})
+		}
+	}
+	for li, vals := range [][]string{{}, {"a"}, {"a", "b"}, {"x\"y", "back\\slash", "new\nline"}, {"`", "$message", "%"}, {""}} {
+		for _, kind := range []string{"containsAll", "containsSome"} {
+			items := []string{}
+			for _, v := range vals {
+				items = append(items, yq(v))
+			}
+			p := header + "violation:\n  - v\nvalidations:\n  v:\n    targetClass: ex.T\n    message: m\n    propertyConstraints:\n      ex.a:\n        " + kind + ": [ " + strings.Join(items, ", ") + " ]\n"
+			res.Case(fmt.Sprintf("set-literal|%d|%s", li, kind), true)
+			res.Count("family=literals")
+			unit, err := validator.GenerateRego(p, false, nil)
+			if err != nil || unit == nil {
+				res.Violate("impl-violates-property", "a profile with the value list "+fmt.Sprintf("%q", vals)+" is not translated: "+fmt.Sprint(err), map[string]any{"profile": p})
+				continue
+			}
+			got := ""
+			for _, line := range strings.Split(unit.Code, "\n") {
+				if m := reSet.FindStringSubmatch(line); m != nil {
+					got = m[1]
+				}
+			}
+			vs := []sx.V{}
+			for _, v := range vals {
+				vs = append(vs, sx.S(v))
+			}
+			want := e.Driver.MustEval(sx.L(sx.A("c07"), sx.A("set-literal"), sx.L(vs...))).Text()
+			if got != want {
+				res.Violate("model-mismatch", "the set literal the generator writes for "+kind+" "+fmt.Sprintf("%q", vals)+" differs from Escape.string_set_literal",
+					map[string]any{"no_failing_input_found": true, "broken": "correspondence Escape.string_set_literal vs generator/quote.go", "profile": p, "impl_literal": got, "model_literal": want})
+			}
 		}
 	}
 	// the model's declaration list, for the record
